@@ -47,7 +47,9 @@ const defs = `(do
   (defmacro forever (fn () '(forever)))
   (defmacro forever2 (fn (x) (list 'forever2 (list 'quote x))))
   (def cond-loop (fn (n) (cond (< n 0) 0 true (cond-loop (+ n 1)))))
-  (def or-loop (fn (n) (or nil (or-loop n)))))`
+  (def or-loop (fn (n) (or nil (or-loop n))))
+  (def shared-atom (atom 0))
+  (def other-atom (atom 0)))`
 
 var kernels = map[string]string{
 	"tail-loop-atoms-only":   "(spin)",
@@ -70,10 +72,16 @@ var kernels = map[string]string{
 	"reduce-loop":            "(reduce (fn (a x) (up a)) 0 [1 2 3])",
 	"earlier-future":         "@earlier-fut",
 	"future-among-many":      "@(future (sleep 100000))",
-	"let-value-loop":         "(let (a (up 0)) a)",
-	"argument-loop":          "(+ 1 (up 0))",
-	"vector-literal-loop":    "[1 (spin) 3]",
-	"eval-loop":              "(eval '(spin))",
+	// a future of an earlier evaluation is in the middle of a slow swap! of the same atom
+	"swap-behind-slow-swap": "(do (swap! shared-atom (fn (x) (+ x 1))) (spin))",
+	// the update function swaps the atom it is applied to: re-applied for ever
+	"swap-self-nested": "(swap! shared-atom (fn (x) (swap! shared-atom (fn (y) (+ y 1)))))",
+	// the evaluation and its own future swap two atoms in opposite order from inside their update functions
+	"swap-crossed-with-future": "(let (f (future (swap! other-atom (fn (x) (do (sleep 30) (swap! shared-atom (fn (y) (+ y 1))) x))))) (do (swap! shared-atom (fn (y) (do (sleep 30) (swap! other-atom (fn (x) (+ x 1))) y))) (deref f) (spin)))",
+	"let-value-loop":           "(let (a (up 0)) a)",
+	"argument-loop":            "(+ 1 (up 0))",
+	"vector-literal-loop":      "[1 (spin) 3]",
+	"eval-loop":                "(eval '(spin))",
 }
 
 var kernelNames []string
@@ -227,6 +235,12 @@ func runOnce(c Case, millis int) result {
 		if r := box.ReadEval(bg, "(def earlier-fut (future (do (sleep 2500) :late)))", e); r.Err != nil {
 			panic(r.Err)
 		}
+	}
+	if c.Shape.kernel() == "swap-behind-slow-swap" {
+		if r := box.ReadEval(bg, "(def slow-swapper (future (swap! shared-atom (fn (x) (do (sleep 8000) x)))))", e); r.Err != nil {
+			panic(r.Err)
+		}
+		time.Sleep(20 * time.Millisecond) // let the update function start
 	}
 	// forty futures of an EARLIER evaluation are still running (under a context of their own) when the program starts one more
 	if c.Shape.kernel() == "future-among-many" {
